@@ -1,0 +1,33 @@
+//go:build verif
+
+// Contracts for gzv (contract-based deductive verification, /verif). Comment-only file.
+package codec
+
+// ---------------------------------------------------------------------------------------------
+// C18 "round-tripping any payload": the PKCS#5 padding layer of the AES-ECB body encryption. The block cipher itself is
+// trusted (crypto/aes); what is proved here is that unpadding inverts padding for EVERY payload length, the empty payload
+// and whole-block payloads included, and that unpadding never reads outside its input.
+// ---------------------------------------------------------------------------------------------
+//@ func pkcs5Padding
+//@   property C18
+//@   requires 1 <= blockSize && blockSize <= 255
+//@   ensures  len(result) == len(ciphertext) + (blockSize - len(ciphertext)%blockSize)
+//@   ensures  forall(i.(int), implies(0 <= i && i < len(ciphertext), result[i] == ciphertext[i]))
+//@   ensures  forall(i.(int), implies(len(ciphertext) <= i && i < len(result), int(result[i]) == blockSize - len(ciphertext)%blockSize))
+//@   allocates
+
+// a well-formed padding (last byte u with 1 <= u <= blockSize and u <= len) is removed exactly; an empty input is an error
+//@ func pkcs5Unpadding
+//@   property C18
+//@   results out, err
+//@   requires blockSize >= 1
+//@   ensures  implies(len(src) == 0, err != nil)
+//@   ensures  implies(len(src) > 0 && 1 <= int(src[len(src)-1]) && int(src[len(src)-1]) <= blockSize && int(src[len(src)-1]) <= len(src),
+//@              err == nil && len(out) == len(src) - int(src[len(src)-1]) && forall(i.(int), implies(0 <= i && i < len(out), out[i] == src[i])))
+//@   modifies nothing
+
+// glue: what pkcs5Padding ensures about a payload of n bytes is exactly what pkcs5Unpadding needs to give the n bytes back
+//@ lemma pkcs5_roundtrip(n int, bs int, pad int, L int, last int)
+//@   property C18
+//@   hyp n >= 0 && 1 <= bs && bs <= 255 && pad == bs - n % bs && L == n + pad && last == pad
+//@   goal 1 <= last && last <= bs && last <= L && L - last == n && L > 0
